@@ -51,8 +51,11 @@ async def _client_ops(cls, scheme, ops):
             reader.feed_eof()
             res.append("ok")
         elif op[0] == "write":
-            n = await tr.write(op[1], timeout=1.0)
-            res.append(hx(writer.data))
+            try:
+                n = await tr.write(op[1], timeout=1.0)
+                res.append(hx(writer.data))
+            except Exception as e:  # noqa: BLE001 - a message of 1..4095 bytes that cannot be written is a delivery failure
+                res.append(f"write-refused:{type(e).__name__}")
             writer.chunks.clear()
         else:
             try:
@@ -191,18 +194,43 @@ def run(ctx):
     ctx.traces_validated += len(scripts)
 
     # --- server loop ---------------------------------------------------------------------------
+    class _Reply:
+        def __init__(self, pdu):
+            self.pdu = pdu
+
+    class _ScriptedServer:
+        """stands in for the UDSServer behind the transport: no reply to requests whose first byte is a multiple of 4, otherwise
+        the reversed request plus a counter byte"""
+
+        class _State:
+            def reset(self):
+                pass
+
+        def __init__(self, owner):
+            self.owner = owner
+            self.state = self._State()
+
+        async def respond(self, request):
+            m = bytes(request.pdu)
+            if m[0] % 4 == 0:
+                return None
+            return _Reply(m[::-1] + bytes([self.owner.cur % 256]))
+
     class T(TCPUDSServerTransport):
         def __init__(self):
             self.n = 0
+            self.cur = 0
+            self.server = _ScriptedServer(self)
+            self.last_time_active = _srv.time()
 
         async def handle_request(self, m):
             n = self.n
             self.n += 1
             if len(m) == 0:
                 return bytes([n % 256]), 0.0
-            if m[0] % 4 == 0:
-                return None, 0.0
-            return m[::-1] + bytes([n % 256]), 0.0
+            # the real UDSServerTransport.handle_request (request parsing, reply / no-reply hand-over to the line loop)
+            self.cur = n
+            return await _srv.UDSServerTransport.handle_request(self, m)
 
     # The server is started through its own run() so that the stream parameters it asks asyncio for (e.g. a line
     # length limit) are the ones its handler really gets; asyncio.start_server / start_unix_server are replaced by a
